@@ -188,6 +188,26 @@ pub fn excluded_part(thorough: bool, evals: &AtomicU64, nontrivial: &AtomicU64) 
 // ───────────── build_plan ─────────────
 
 const PLAN_PATHS: [&str; 3] = ["a", "b", "d/c"];
+/// Further universes whose byte order and component order disagree (a directory next to
+/// siblings whose names extend it with a byte below '/').
+const PLAN_UNIVERSES: [&[&str]; 3] = [&["a", "b", "d/c"], &["conf/a", "conf.d/b", "conf-x"], &["n.txt", "n/t", "n-a", "n+/u"]];
+const PLAN_PATTERNS: [&[&str]; 3] = [&["a", "d", "*", "d/c", "d/*", "?"], &["a", "conf", "conf.d", "conf*", "*/a", "conf?x"], &["n", "n*", "n/*", "t", "?.txt", "n+"]];
+
+pub fn plan_state_u(uni: usize, idx: usize) -> (Vec<(String, (u64, i64))>, Vec<(String, (u64, i64))>) {
+    let mut k = idx;
+    let mut src = Vec::new();
+    let mut dst = Vec::new();
+    for p in PLAN_UNIVERSES[uni] {
+        if let Some(m) = META_VALS[k % 4] {
+            src.push((p.to_string(), m));
+        }
+        if let Some(m) = META_VALS[(k / 4) % 4] {
+            dst.push((p.to_string(), m));
+        }
+        k /= 16;
+    }
+    (src, dst)
+}
 const META_VALS: [Option<(u64, i64)>; 4] = [None, Some((1, 1)), Some((2, 1)), Some((1, 2))];
 
 pub fn plan_state(idx: usize) -> (Vec<(String, (u64, i64))>, Vec<(String, (u64, i64))>) {
@@ -210,8 +230,19 @@ fn to_metamap(v: &[(String, (u64, i64))]) -> MetaMap {
     v.iter().map(|(p, (s, m))| (PathBuf::from(p), FileMeta { size: *s, mtime: *m })).collect()
 }
 
-fn plan_part(evals: &AtomicU64, nontrivial: &AtomicU64) -> Vec<Violation> {
-    let pats = ["a", "d", "*", "d/c", "d/*", "?"];
+fn plan_part(thorough: bool, evals: &AtomicU64, nontrivial: &AtomicU64) -> Vec<Violation> {
+    let mut out = Vec::new();
+    for uni in 0..PLAN_UNIVERSES.len() {
+        if PLAN_UNIVERSES[uni].len() > 3 && !thorough {
+            continue;
+        }
+        out.extend(plan_part_u(uni, evals, nontrivial).into_iter().take(5));
+    }
+    out
+}
+
+fn plan_part_u(uni: usize, evals: &AtomicU64, nontrivial: &AtomicU64) -> Vec<Violation> {
+    let pats = PLAN_PATTERNS[uni];
     let mut lists: Vec<Vec<String>> = vec![vec![]];
     for p in pats {
         lists.push(vec![p.to_string()]);
@@ -221,10 +252,11 @@ fn plan_part(evals: &AtomicU64, nontrivial: &AtomicU64) -> Vec<Violation> {
             lists.push(vec![p.to_string(), q.to_string()]);
         }
     }
-    (0..4096usize)
+    let total = 16usize.pow(PLAN_UNIVERSES[uni].len() as u32);
+    (0..total)
         .into_par_iter()
         .flat_map_iter(|idx| {
-            let (src, dst) = plan_state(idx);
+            let (src, dst) = plan_state_u(uni, idx);
             let (sm, dm) = (to_metamap(&src), to_metamap(&dst));
             let mut out = Vec::new();
             let mut n = 0u64;
@@ -240,7 +272,7 @@ fn plan_part(evals: &AtomicU64, nontrivial: &AtomicU64) -> Vec<Violation> {
                     let gt: Vec<String> = got.transfer.iter().map(|p| p.to_string_lossy().into_owned()).collect();
                     let gd: Vec<String> = got.delete.iter().map(|p| p.to_string_lossy().into_owned()).collect();
                     if (gt != wt || got.skipped != ws || gd != wd) && out.len() < 2 {
-                        out.push(Violation::new("build_plan", format!("build_plan: transfer {gt:?} skipped {} delete {gd:?}; definition: transfer {wt:?} skipped {ws} delete {wd:?} (excludes {ex:?}, delete={del})", got.skipped), json!({"fn":"build_plan","state":idx,"excludes":ex,"delete":del})));
+                        out.push(Violation::new("build_plan", format!("build_plan: transfer {gt:?} skipped {} delete {gd:?}; definition: transfer {wt:?} skipped {ws} delete {wd:?} (excludes {ex:?}, delete={del})", got.skipped), json!({"fn":"build_plan","universe":uni,"state":idx,"excludes":ex,"delete":del})));
                     }
                 }
             }
@@ -456,7 +488,7 @@ pub fn run(ctx: &Ctx) -> ! {
                 }
             }
             _ => {
-                vs.extend(plan_part(&evals, &nontrivial));
+                vs.extend(plan_part(true, &evals, &nontrivial));
                 vs.extend(listing_part(&evals, &nontrivial));
                 vs.extend(real_find_part(&evals));
                 vs.extend(cli_binding(false, &evals));
@@ -473,7 +505,7 @@ pub fn run(ctx: &Ctx) -> ! {
     violations.extend(v.into_iter().take(10));
     let glob_evals = evals.load(Ordering::Relaxed);
     violations.extend(excluded_part(thorough, &evals, &nontrivial).into_iter().take(10));
-    violations.extend(plan_part(&evals, &nontrivial).into_iter().take(10));
+    violations.extend(plan_part(thorough, &evals, &nontrivial));
     violations.extend(needs_transfer_part(&evals));
     violations.extend(listing_part(&evals, &nontrivial));
     violations.extend(real_find_part(&evals));
@@ -483,7 +515,7 @@ pub fn run(ctx: &Ctx) -> ! {
     let mut rep = Report::new("exploration");
     rep.set("evaluations", evals.load(Ordering::Relaxed))
         .set("distinct_nontrivial", nontrivial.load(Ordering::Relaxed))
-        .set("rule", format!("glob_match: every (pattern, text) with both of length <= {glob_len} over {{a,b,*,?,.,/}} vs a DP reference; is_excluded: every pattern of length <= 3 (+ trailing-slash variants) x every path of 1..3 components over names of length <= 2 from {{a,*,?,.}}; build_plan: all 4096 (src,dst) metadata maps over 3 paths x 43 exclude lists x delete on/off vs a set-comprehension reference; listing parser on rendered and real `find -printf` output; non-trivial = pattern or text contains a metacharacter / path is excluded / plan is non-empty"))
+        .set("rule", format!("glob_match: every (pattern, text) with both of length <= {glob_len} over {{a,b,*,?,.,/}} vs a DP reference; is_excluded: every pattern of length <= 3 (+ trailing-slash variants) x every path of 1..3 components over names of length <= 2 from {{a,*,?,.}}; build_plan: all (src,dst) metadata maps over two 3-path universes (plus a 4-path one in thorough; chosen so byte order and component order of paths disagree) x 43 exclude lists x delete on/off vs a set-comprehension reference; listing parser on rendered and real `find -printf` output; non-trivial = pattern or text contains a metacharacter / path is excluded / plan is non-empty"))
         .set("glob_pairs", glob_evals)
         .set("cli_dry_run_runs", cli_runs)
         .set("samples", json!([
